@@ -20,6 +20,43 @@ hook_commits = subprocess.run(["git", "-C", "/repo", "log", "--format=%H %s", "-
                               stdout=subprocess.PIPE, text=True).stdout.strip().split("\n")
 hook_commits = [l.split(" ", 1)[0] for l in hook_commits if l]
 
+TECHNIQUE = {
+ "C01": "runtime monitoring: fuzzed source texts through the hooked front end and the real CLI, judged by the process exit taxonomy (panic/abort/segv/hang)",
+ "C02": "runtime monitoring: per-built-in hostile-argument exploration through the JSON session, judged by the exit taxonomy",
+ "C03": "runtime monitoring: exhaustive small-scope operator chains; AST dump vs left-fold reference tree, values vs reference arithmetic",
+ "C04": "runtime monitoring: differential testing against a reference arithmetic model on an exhaustive boundary grid plus random pairs",
+ "C05": "runtime monitoring: differential execution of generated typed programs against an independent reference interpreter",
+ "C06": "runtime monitoring: exhaustive by-construction scoping programs judged by the reference interpreter",
+ "C07": "runtime monitoring: error-site catalogue x contexts in a JSON session; invariant r2=r3=r4 and r1~r2 over the response log",
+ "C08": "fault injection at every interpreter tick (hook) with resume; metamorphic comparison with the uninterrupted run",
+ "C09": "runtime monitoring: offline conservation checker (one response between sentinels, liveness) over transcripts of the real JSON session",
+ "C10": "runtime monitoring: twin-session differential (aborted vs fresh) over probe requests",
+ "C11": "runtime monitoring: twin-session metamorphic relation (incremental vs joined input)",
+ "C12": "runtime monitoring: round-trip oracle (print, re-evaluate, independent reader) over exhaustive small strings and generated values",
+ "C13": "runtime monitoring: all-pairs equality matrix against abstract value equality and the equivalence laws",
+ "C14": "runtime monitoring of the real subtype relation via hook: agreement with a reference relation and preorder/variance laws on enumerated universes",
+ "C15": "runtime monitoring of the real unify via hook: upper-bound and idempotence laws on enumerated universes, plus check/hover on snippets",
+ "C16": "runtime monitoring: type-breaking mutation of well-typed generated programs; check verdict vs runtime error templates",
+ "C17": "runtime monitoring: AST-dump equality of parse(x) and parse(format(x)) incl. comments over generated and re-laid-out programs",
+ "C18": "runtime monitoring: idempotence oracle format(format(x)) == format(x) over fuzzed inputs, --check through the CLI",
+ "C19": "runtime monitoring: rename at every occurrence vs the generator's binder-id occurrence sets; behaviour comparison",
+ "C20": "runtime monitoring: extract refactorings at every pure sub-expression; metamorphic behaviour comparison with the original run",
+ "C21": "runtime monitoring: wrap-in-dbg / add-type-annotation at every position; metamorphic behaviour and check-error comparison",
+ "C22": "runtime monitoring: lint-seeded programs through check --fix; parse, behaviour and fixed-point oracles",
+ "C23": "runtime monitoring: position-consistency invariant applied to every reported position of fuzzed inputs",
+ "C24": "syscall-trace monitor (strace) with an allow-list over every effectful built-in in sandboxed modes",
+ "C25": "runtime monitoring: sandboxed runs of non-terminating/blocking/deep programs judged by exit taxonomy, /proc state, strace and the tick hook",
+ "C26": "runtime monitoring: by-construction test verdicts vs garden test output/exit status under isolation, permutation and filtering",
+ "C27": "runtime monitoring: eval-up-to at every expression vs the reference interpreter's first-evaluation trace",
+ "C28": "runtime monitoring: offline checker over LSP transcripts (one response per request before a sentinel, liveness, diagnostics == check)",
+ "C29": "runtime monitoring: exhaustive small-document conversion checks via hook against a UTF-16 reference; server edits applied by an independent applier vs CLI output",
+ "C30": "runtime monitoring: offline history checker (one done, last, output conservation with unique tags, isolation) over nREPL transcripts with injected delays",
+ "C31": "runtime monitoring: interrupt/close scenarios against the real nREPL server with injected delays; transcript rules plus step bound from the event log",
+ "C32": "runtime monitoring: differential testing against Python reference implementations on exhaustive small inputs; termination by the interpreter's own tick limit",
+ "C33": "runtime monitoring: print/parse round trip of grammar-generated syntax trees via the AST-dump hook",
+ "C34": "runtime monitoring: generated multi-file projects vs a visibility reference model at check and run time",
+}
+
 checks, na = [], []
 for p in props:
     pid = p["id"]
@@ -41,7 +78,7 @@ for p in props:
             "design_ref": "DESIGN.md section 4, " + pid,
         },
         "level_note": "; ".join(getattr(mod, "ASSUME", [])) or "oracle and workload as described in DESIGN.md",
-        "technique": getattr(mod, "TECHNIQUE", "runtime monitoring: generated workload against the real binary, judged by an independent oracle"),
+        "technique": TECHNIQUE.get(pid) or getattr(mod, "TECHNIQUE", "runtime monitoring"),
     })
 
 manifest = {
